@@ -74,6 +74,9 @@ type An struct {
 	Sign func(v ssa.Value, facts []ir.Fact) (nonneg, nonpos, ok bool)
 	// LinSign may settle the sign of a linear form over symbols (e.g. a difference of two symbols).
 	LinSign func(l ranges.Lin) (nonneg, nonpos, ok bool)
+	// SelectionIndep: which element of a collection is selected (index / key) is not the analysis'
+	// business; the selected element counts as input-independent (used for "inside one segment" claims).
+	SelectionIndep bool
 	// RangesSetup configures the range analyser used for signs and for ordering pieces.
 	RangesSetup func(*ranges.An)
 	Name        func(ssa.Value) string
@@ -283,7 +286,7 @@ func (an *An) load(u *ssa.UnOp, facts []ir.Fact) Dir {
 			addr = a.X
 			continue
 		case *ssa.IndexAddr:
-			if an.Eval(a.Index, facts) != Indep {
+			if !an.SelectionIndep && an.Eval(a.Index, facts) != Indep {
 				return an.fail("element selected by an input-dependent index")
 			}
 			addr = a.X
@@ -306,6 +309,9 @@ func (an *An) load(u *ssa.UnOp, facts []ir.Fact) Dir {
 }
 
 func (an *An) lookup(l *ssa.Lookup, facts []ir.Fact) Dir {
+	if an.SelectionIndep {
+		return an.Eval(l.X, facts)
+	}
 	k := an.Eval(l.Index, facts)
 	if k == Indep && an.Eval(l.X, facts) == Indep {
 		return Indep
@@ -598,7 +604,7 @@ func (an *An) Enter(c *ssa.Call, facts []ir.Fact) *An {
 	}
 	sub := New(ci.Static)
 	sub.parent = an
-	sub.Source, sub.CallSummary, sub.LookupSummary, sub.Inline, sub.Sign, sub.LinSign, sub.RangesSetup, sub.Name = an.Source, an.CallSummary, an.LookupSummary, an.Inline, an.Sign, an.LinSign, an.RangesSetup, an.Name
+	sub.Source, sub.CallSummary, sub.LookupSummary, sub.Inline, sub.Sign, sub.LinSign, sub.RangesSetup, sub.Name, sub.SelectionIndep = an.Source, an.CallSummary, an.LookupSummary, an.Inline, an.Sign, an.LinSign, an.RangesSetup, an.Name, an.SelectionIndep
 	sub.depth = an.depth
 	sub.rng = an.ranges().Enter(c, facts) // parameters bound to the ranges of the arguments
 	sub.params = map[*ssa.Parameter]Dir{}
@@ -622,7 +628,30 @@ type piece struct {
 // Result classifies result #idx of the function over all its returns (returns whose error result is
 // certainly non-nil are not outcomes). Use ResultWhere to restrict the returns.
 func (an *An) Result(idx int) Dir {
-	return an.ResultWhere(idx, nil)
+	res := an.Fn.Signature.Results()
+	ei := res.Len() - 1
+	if ei < 0 || ei == idx || !types.Identical(res.At(ei).Type(), types.Universe.Lookup("error").Type()) {
+		return an.ResultWhere(idx, nil)
+	}
+	return an.ResultWhere(idx, func(r *ssa.Return, _ *ssa.BasicBlock) bool {
+		return ei >= len(r.Results) || !surelyNonNilError(r.Results[ei])
+	})
+}
+
+// surelyNonNilError: the returned error is a sentinel variable, a freshly made error, or a boxed concrete value.
+func surelyNonNilError(v ssa.Value) bool {
+	if _, ok := v.(*ssa.MakeInterface); ok {
+		return true
+	}
+	switch x := ir.Resolve(v).(type) {
+	case *ssa.Call:
+		n := ir.CallName(x)
+		return n == "errors.New" || n == "fmt.Errorf"
+	case *ssa.UnOp:
+		_, isGlobal := x.X.(*ssa.Global)
+		return isGlobal && x.Op == token.MUL
+	}
+	return false
 }
 
 // ResultWhere: keep(ret, via) selects the outcomes that count.
@@ -810,6 +839,44 @@ func (an *An) phi(x *ssa.Phi) Dir {
 	return cur
 }
 
+// PhiWhere classifies the (non-loop) phi restricted to the incoming edges selected by keep: the value the
+// phi takes given that it was entered through one of those edges.
+func (an *An) PhiWhere(x *ssa.Phi, keep func(i int) bool) Dir {
+	B := x.Block()
+	var ps []piece
+	idx := map[int]int{}
+	for i, e := range x.Edges {
+		if keep(i) {
+			idx[i] = len(ps)
+			ps = append(ps, piece{e, ranges.FactsAt(B, B.Preds[i]), fmt.Sprintf("edge %d->%d", B.Preds[i].Index, B.Index)})
+		}
+	}
+	if len(ps) == 0 {
+		return Indep
+	}
+	an.assume[x] = Unknown
+	defer delete(an.assume, x)
+	all, _ := an.choices(B, false)
+	var seps [][2]map[int]bool
+	for _, s := range all {
+		m0, m1 := map[int]bool{}, map[int]bool{}
+		for k := range s[0] {
+			if j, ok := idx[k]; ok {
+				m0[j] = true
+			}
+		}
+		for k := range s[1] {
+			if j, ok := idx[k]; ok {
+				m1[j] = true
+			}
+		}
+		if len(m0) > 0 && len(m1) > 0 {
+			seps = append(seps, [2]map[int]bool{m0, m1})
+		}
+	}
+	return an.pieces(ps, seps, "phi "+an.name(x))
+}
+
 // choices lists, for every input-dependent branch that decides through which edge B is entered, the
 // two sets of incoming edges its arms lead to. Branches whose arms lead to the same single edge decide
 // nothing. loopCtl: an input-dependent branch decides whether the loop headed by B is continued at all.
@@ -913,7 +980,7 @@ func (an *An) pieces(ps []piece, seps [][2]map[int]bool, what string) Dir {
 	tryDir := func(want Dir) (bool, string) {
 		for i := 0; i < len(ps); i++ {
 			for j := i + 1; j < len(ps); j++ {
-				if !separated(i, j) || sameValue(ps[i].val, ps[j].val) {
+				if !separated(i, j) || sameValue(ps[i].val, ps[j].val) || equalUnder(ps[i], ps[j]) || equalUnder(ps[j], ps[i]) {
 					continue
 				}
 				pair, pd := []piece{ps[i], ps[j]}, []Dir{dirs[i], dirs[j]}
@@ -940,7 +1007,7 @@ func (an *An) pieces(ps []piece, seps [][2]map[int]bool, what string) Dir {
 	needs := false
 	for i := 0; i < len(ps); i++ {
 		for j := i + 1; j < len(ps); j++ {
-			if separated(i, j) && !sameValue(ps[i].val, ps[j].val) {
+			if separated(i, j) && !sameValue(ps[i].val, ps[j].val) && !equalUnder(ps[i], ps[j]) && !equalUnder(ps[j], ps[i]) {
 				needs = true
 			}
 		}
@@ -962,6 +1029,21 @@ func (an *An) pieces(ps []piece, seps [][2]map[int]bool, what string) Dir {
 		}
 	}
 	return an.fail("%s", why)
+}
+
+// equalUnder: the facts of piece a say that its value equals b's value (if x == y {x} else {y} is y).
+func equalUnder(a, b piece) bool {
+	va, vb := stripConv(ir.Resolve(a.val)), stripConv(ir.Resolve(b.val))
+	for _, f := range a.facts {
+		if f.Op != token.EQL || f.X == nil || f.Y == nil {
+			continue
+		}
+		x, y := stripConv(f.X), stripConv(f.Y)
+		if (x == va && y == vb) || (x == vb && y == va) {
+			return true
+		}
+	}
+	return false
 }
 
 func sameValue(a, b ssa.Value) bool {
